@@ -30,8 +30,11 @@ _CODONS = ["GCT", "AAA", "GAT", "TTA", "CCG", "GGT", "ACG", "TTA", "CAG", "GAA"]
 
 
 def base_sequence():
-    # no ATG/stop problems matter: translations are taken as-is; contains TTA codons for the TTA module
-    return "".join(_CODONS[i % len(_CODONS)] for i in range(L // 3))
+    """aperiodic (so extraction equality pins coordinates), with TTA codons in every frame for the TTA module"""
+    import random
+    rng = random.Random(20240926)
+    codons = ["GCT", "AAA", "GAT", "TTA", "CCG", "GGT", "ACG", "CAG", "GAA", "TCC", "ATC", "CTG"]
+    return "".join(rng.choice(codons) for _ in range(L // 3))
 
 
 LAYOUTS = {
